@@ -20,7 +20,8 @@ EXPLANATION = (
     'predictors 1 in the column order; (MEADOWS) sort reaches sort_by(conds="alpha"), descriptors come from the file-name '
     'fields the scope implies, no axis-less squeeze. The parse/format inverse law over the grammar, numeric file contents '
     'and HRF values are NOT decided.'
-    ' Also: (SEQ-GUARD) the meadows guard compares stimulus lists as sequences; (LOOKUP) BIDS finders return the file at the full rebuilt path (or from a store keyed by it).')
+    ' Also: (SEQ-GUARD) the meadows guard compares stimulus lists as sequences; (LOOKUP) BIDS finders return the file at the full rebuilt path (or from a store keyed by it).'
+    ' Round 6: (PAIR) the vectors of a multi-participant Meadows file are looked up by the participant names.')
 ASSUMPTIONS = ['BIDS entity order table frozen in the checker', 'pandas / nibabel / scipy.io calls are not modelled']
 FLOOR = 50
 RULE_FLOORS = {'TAB': 14, 'ASSIGN': 8}
